@@ -24,6 +24,23 @@ type SyncClock struct {
 	RTPTimeUnit float64 // RTP时间单位，每个RTP时间的纳秒数
 
 	initOn time.Time // 初始化时间
+
+	// 32 位 RTP 时间戳会回绕（90kHz 下约 13 小时）：按相邻时间戳的有符号差累计成 64 位扩展时间戳
+	lastRTP uint32
+	extRTP  int64
+	extInit bool
+}
+
+// extend 把 32 位 RTP 时间戳展开为不回绕的 64 位值（相邻两次调用的时间戳相差须小于 2^31）
+func (sc *SyncClock) extend(rtptime uint32) int64 {
+	if !sc.extInit {
+		sc.extInit = true
+		sc.extRTP = int64(sc.RTPTime) + int64(int32(rtptime-sc.RTPTime))
+	} else {
+		sc.extRTP += int64(int32(rtptime - sc.lastRTP))
+	}
+	sc.lastRTP = rtptime
+	return sc.extRTP
 }
 
 // Init 初始化同步时钟
@@ -57,7 +74,7 @@ func (sc *SyncClock) RelativeNtpNow() int64 {
 
 // RelativeNtp .
 func (sc *SyncClock) RelativeNtp(rtptime uint32) int64 {
-	diff := int64(rtptime) - int64(sc.RTPTime)
+	diff := sc.extend(rtptime) - int64(sc.RTPTime)
 	return int64(float64(diff) * sc.RTPTimeUnit)
 }
 
